@@ -204,7 +204,7 @@ def main(argv=None):
         for c in out["controls"]:
             if c.get("result") == "NOT DETECTED":
                 out["broken"].append("mutation control %s: the seeded change is no longer reported by %s" % (c["seed"], "/".join(c["expected_rules"])))
-    if not a.replay:
+    if not a.replay and not os.environ.get("VERIF_NO_EVIDENCE"):     # VERIF_NO_EVIDENCE: trial runs on scratch copies (tools/patchcheck.sh)
         write_evidence(pid, tier, seed, out)
     for r in out["results"]:
         print("%s: %d obligations, %d non-trivial, %d violations%s" % (
@@ -217,7 +217,7 @@ def main(argv=None):
             print("ANALYSIS-BROKEN property=%s %s" % (pid, b))
         return 2
     if out["violations"]:
-        od = os.path.join(VERIF, "out", pid)
+        od = os.path.join(os.environ.get("VERIF_OUT") or os.path.join(VERIF, "out"), pid)
         os.makedirs(od, exist_ok=True)
         for n, v in enumerate(out["violations"], 1):
             path = os.path.join(od, "%d.json" % n)
